@@ -84,12 +84,11 @@ func (c *Ctx) prunedCellLayout() {
 	if f == nil {
 		return
 	}
-	var nc *ssa.Call
-	for _, cl := range callsTo(f, bocPath+".NewCell") {
-		nc = cl
-	}
+	// the pruned-branch cell is built in pruneCells or in the unexported helper it delegates to
+	entry := f
+	f, nc := c.hostOf(entry, bocPath+".NewCell")
 	if nc == nil {
-		c.bad(R, "pruned cell construction", f.Pos(), "no boc.NewCell() in pruneCells")
+		c.bad(R, "pruned cell construction", entry.Pos(), "no boc.NewCell() in pruneCells")
 		return
 	}
 	ws := cellWrites(f, nc)
@@ -110,16 +109,16 @@ func (c *Ctx) prunedCellLayout() {
 	c.check(ct == 1 && mk == 1, R, "pruned branch has exotic type 1 and level mask 1", nc.Pos(), "cellType = PrunedBranchCell, mask = 1", fmt.Sprintf("the pruned-branch cell gets cellType %d and mask %d (expected 1 and 1)", ct, mk))
 	// Merkle cells refused
 	refused := map[int64]bool{}
-	for _, b := range f.Blocks {
+	for _, b := range entry.Blocks {
 		if ifi := lastIf(b); ifi != nil {
 			if bo, ok := ifi.Cond.(*ssa.BinOp); ok && bo.Op == token.EQL {
-				if k, ok := constInt(bo.Y); ok && derivesFrom(bo.X, fieldLoadNamed("cellType"), false) && rejects(f, b) {
+				if k, ok := constInt(bo.Y); ok && derivesFrom(bo.X, fieldLoadNamed("cellType"), false) && rejects(entry, b) {
 					refused[k] = true
 				}
 			}
 		}
 	}
-	c.check(refused[3] && refused[4], R, "the pruner refuses Merkle proof / update cells", f.Pos(), "cellType 3 and 4 return an error", "pruneCells no longer refuses Merkle-proof and Merkle-update cells")
+	c.check(refused[3] && refused[4], R, "the pruner refuses Merkle proof / update cells", entry.Pos(), "cellType 3 and 4 return an error", "pruneCells no longer refuses Merkle-proof and Merkle-update cells")
 }
 
 func valOr(v ssa.Value) ssa.Value {
@@ -300,27 +299,71 @@ func (c *Ctx) proveKeyRules() {
 		}
 	}
 	if fork != nil {
+		// which side of the fork a block lies on: behind the true (right) edge, the false (left) edge, or neither
+		// (the key bit may be tested more than once: every test of the same value is the fork)
+		var forks []*ssa.If
+		for _, b := range f.Blocks {
+			if ifi := lastIf(b); ifi != nil && ifi.Cond == fork.Cond {
+				forks = append(forks, ifi)
+			}
+		}
+		sideOf := func(b *ssa.BasicBlock) (right, known bool) {
+			for _, fk := range forks {
+				if edgeDominates(f, edge{fk.Block(), 0}, b) {
+					return true, true
+				}
+				if edgeDominates(f, edge{fk.Block(), 1}, b) {
+					return false, true
+				}
+			}
+			return false, false
+		}
 		for _, cl := range callsTo(f, bocPath+".Cursor.Ref") {
-			k, ok := constInt(cl.Call.Args[1])
-			if !ok {
-				continue
-			}
-			side := edgeDominates(f, edge{fork.Block(), 0}, cl.Block())
-			other := edgeDominates(f, edge{fork.Block(), 1}, cl.Block())
-			if !side && !other {
-				continue
-			}
 			isPruned := false
 			for _, r := range realRefs(cl) {
 				if rc, ok := r.(*ssa.Call); ok && callQName(&rc.Call) == bocPath+".Cursor.Prune" {
 					isPruned = true
 				}
 			}
-			s := sides[side]
-			if isPruned {
-				s.pruned = append(s.pruned, k)
-			} else {
-				s.followed = append(s.followed, k)
+			add := func(right bool, k int64) {
+				s := sides[right]
+				if isPruned {
+					s.pruned = append(s.pruned, k)
+				} else {
+					s.followed = append(s.followed, k)
+				}
+			}
+			if k, ok := constInt(cl.Call.Args[1]); ok {
+				// one call per side, with a constant child index
+				if right, known := sideOf(cl.Block()); known {
+					add(right, k)
+				}
+				continue
+			}
+			// one call after the fork, with the child index chosen on each side (taken, sibling := 0, 1 / 1, 0)
+			if phi, ok := cl.Call.Args[1].(*ssa.Phi); ok {
+				for i, e := range phi.Edges {
+					k, ok := constInt(e)
+					if !ok {
+						continue
+					}
+					pred := phi.Block().Preds[i]
+					if right, known := sideOf(pred); known {
+						add(right, k)
+					} else {
+						// the edge straight from a fork: the side on which nothing was reassigned
+						for _, fk := range forks {
+							if pred != fk.Block() {
+								continue
+							}
+							for si, sb := range fk.Block().Succs {
+								if sb == phi.Block() {
+									add(si == 0, k)
+								}
+							}
+						}
+					}
+				}
 			}
 		}
 		okv := fmt.Sprint(sides[true].pruned) == "[0]" && fmt.Sprint(sides[true].followed) == "[1]" && fmt.Sprint(sides[false].pruned) == "[1]" && fmt.Sprint(sides[false].followed) == "[0]"
@@ -525,4 +568,15 @@ func (c *Ctx) cursorPathOwnership() {
 		}
 	})
 	c.check(okv, R, "a child cursor's position does not share storage with its parent's", f.Pos(), "no append onto a slice field of the receiver", "Cursor.Ref builds the child's position with append on the receiver's own slice field ("+what+"): two children of one cursor share a backing array, and creating the second rewrites the position of the first - a cursor kept across that prunes or reveals the wrong subtree")
+}
+
+// hostOf: the function among f and the unexported helpers it calls (one level) that contains a call
+// of q, with that call: where a piece of f's work sits after an extract-method refactoring.
+func (c *Ctx) hostOf(f *ssa.Function, q string) (*ssa.Function, *ssa.Call) {
+	for _, g := range c.helperClosure(f, 1, func(h *ssa.Function) bool { return plainHelper(h) == nil }) {
+		if cs := callsTo(g, q); len(cs) > 0 {
+			return g, cs[len(cs)-1]
+		}
+	}
+	return f, nil
 }
